@@ -3446,3 +3446,52 @@ impl Spx {
         unreachable!();
     }
 }
+
+/// Verification hooks: leaf functions of the block and inline parsers
+/// (the sub-modules are private, so the wrappers are gathered here).
+#[cfg(comrak_verif)]
+pub mod verif_leaf {
+    use super::*;
+
+    /// `inlines::manual_scan_link_url`.
+    pub fn manual_scan_link_url(input: &[u8]) -> Option<(&[u8], usize)> {
+        inlines::manual_scan_link_url(input)
+    }
+    /// `inlines::manual_scan_link_url_2`.
+    pub fn manual_scan_link_url_2(input: &[u8]) -> Option<(&[u8], usize)> {
+        inlines::manual_scan_link_url_2(input)
+    }
+    /// `autolink::check_domain`.
+    pub fn check_domain(data: &[u8], allow_short: bool) -> Option<usize> {
+        autolink::verif_check_domain(data, allow_short)
+    }
+    /// `autolink::is_valid_hostchar`.
+    pub fn is_valid_hostchar(ch: char) -> bool {
+        autolink::verif_is_valid_hostchar(ch)
+    }
+    /// `autolink::autolink_delim`.
+    pub fn autolink_delim(data: &[u8], link_end: usize, relaxed_autolinks: bool) -> usize {
+        autolink::verif_autolink_delim(data, link_end, relaxed_autolinks)
+    }
+    /// `autolink::validate_protocol`.
+    pub fn validate_protocol(protocol: &str, contents: &[u8], cursor: usize) -> bool {
+        autolink::verif_validate_protocol(protocol, contents, cursor)
+    }
+    /// `table::unescape_pipes`.
+    pub fn unescape_pipes(string: &[u8]) -> Vec<u8> {
+        table::verif_unescape_pipes(string)
+    }
+    /// `parse_list_marker`.
+    pub fn parse_list_marker(line: &[u8], pos: usize, interrupts_paragraph: bool) -> Option<(usize, NodeList)> {
+        super::parse_list_marker(line, pos, interrupts_paragraph)
+    }
+    /// `Parser::scan_thematic_break_inner` on a fresh parser whose `first_nonspace` is set.
+    pub fn scan_thematic_break_inner(line: &[u8], first_nonspace: usize) -> (usize, bool) {
+        let arena = Arena::new();
+        let options = Options::default();
+        let root = parse_document(&arena, "", &options);
+        let mut parser = Parser::new(&arena, root, &options);
+        parser.first_nonspace = first_nonspace;
+        parser.scan_thematic_break_inner(line)
+    }
+}
